@@ -86,5 +86,45 @@ def cache_targets(tier):
     ]
 
 
+def stn_json_node_view(I, o):
+    """JSON keeps no lazy bytes: the node is decoded at once unless the symbol is a cross reference"""
+    import z3
+    from pyvc.interp import NONE as _NONE
+    from pyvc.sym import SOpt
+
+    cr = VN.stn_cross_ref(I, o)
+    node = o.fields.get("_node")
+    if isinstance(cr, SOpt):
+        if I.ctx.branch(cr.isnone):
+            return node
+        return _NONE
+    return _NONE  # a module: always a reference
+
+
+def stn_target():
+    import mypy.nodes as N
+    from pyvc.types import TBool, TInt, TObj, TStr
+
+    ft = dict(VN.FT)
+    ft.update({("SymbolTableNode", "kind"): TInt(), ("SymbolTableNode", "module_hidden"): TBool(), ("SymbolTableNode", "module_public"): TBool(),
+               ("SymbolTableNode", "implicit"): TBool(), ("SymbolTableNode", "plugin_generated"): TBool(), ("SymbolTableNode", "no_serialize"): TBool(),
+               ("MypyFile", "_fullname"): TStr(), ("TypeInfo", "_fullname"): TStr(), ("Decorator", "func"): TObj(N.FuncDef), ("Var", "from_module_getattr"): TBool(),
+               ("TypeVarExpr", "_fullname"): TStr(), ("ParamSpecExpr", "_fullname"): TStr(), ("TypeVarTupleExpr", "_fullname"): TStr(), ("TypeVarLikeExpr", "_fullname"): TStr()})
+    view = {"cross_ref": VN.stn_cross_ref, "_node": stn_json_node_view}
+    tr = {"unfixed": "set by deserialize(): the node still needs fixup", "stored_info": "fixup-local", "no_serialize": "symbols with no_serialize are skipped by SymbolTable.serialize",
+          "_node_bytes": "binary format only (lazy decoding)", "_node_tag": "binary format only"}
+
+    def requires(I, env):
+        import z3
+
+        VN.stn_requires(I, env)
+        k = I.getattr(env["self"], "kind").t
+        I.ctx.assume(z3.Or(*[k == v for v in sorted(N.node_kinds)]))  # class invariant: kind is one of LDEF / GDEF / MDEF / UNBOUND_IMPORTED
+
+    return CodecTarget("json.nodes.SymbolTableNode", N.SymbolTableNode, view=view, transient=tr, field_types=ft, nested_readers=JSON_NESTED_READERS,
+                       requires=requires, write_args=VN.stn_write_args, read_skips_tag=False, writer="serialize", reader="deserialize", json=True,
+                       note="the node is a nested object (modular); the cross-reference decision is the same spec function as for the binary writer")
+
+
 def targets(tier):
-    return type_targets(tier) + node_targets(tier) + cache_targets(tier)
+    return type_targets(tier) + node_targets(tier) + cache_targets(tier) + [stn_target()]
